@@ -25,3 +25,131 @@ def instances(tier):
         out.append(Instance("C16", "c14:h_final_structure", dict(base=b, nsym=1, permute=0), name="H/%s/+1" % b, cover=["successful-history"],
                             max_paths=30000, weight=10, time_limit=2500))
     return out, META
+
+
+# ---------------------------------------------------------------------------------------------------
+def e_echo(ctx, shape, lim_keys=("vi", "tp"), limited=None):
+    """params(), limits() and phases() show for each component the parameters, the NON-DEFAULT limits and the per-phase
+    values it was configured with (tables as 'interp') - an absolute oracle (a display bug is the same in an edited and
+    in a freshly built system, so the comparison above cannot see it)."""
+    from .. import sysh, spec, snap
+    from ..build import PARAMS, cls_of
+    from ..ops import Eq, Abs, cond, And, Or, Not, Implies
+    from .c09 import mk_limits, DEFAULTS
+
+    shape = {**shape, "nodes": [dict(n) for n in shape["nodes"]]}
+    lims = {nd["name"]: {} for nd in shape["nodes"]}
+    for nd in shape["nodes"]:
+        # symbolic limits on two components only: every limit forks three ways (different / equal to the default)
+        if nd["name"] in (limited or [n["name"] for n in shape["nodes"]][1:3]):
+            lims[nd["name"]] = mk_limits(ctx, nd["name"], list(lim_keys))
+            nd["limits"] = lims[nd["name"]]
+    sysobj, info, durations = sysh.build_system(ctx, shape, rt="all")
+    cols = {"vo (V)": "vo", "vdrop (V)": "vdrop", "rs (Ohm)": "rs", "rt (°C/W)": "rt", "eff (%)": "eff", "ig (A)": "ig", "iq (A)": "iq",
+            "ii (A)": "ii", "iis (A)": "iis", "pwr (W)": "pwr", "pwrs (W)": "pwrs", "loss": "loss"}
+    defaults = {"rs": 0.0, "rt": 0.0, "iq": 0.0, "ig": 0.0, "iis": 0.0, "pwrs": 0.0, "vdrop": 0.0}
+    pf = sysobj.params(limits=True)
+    lf = sysobj.limits()
+    ctx.cover("reported")
+    names = [n["name"] for n in shape["nodes"]]
+    ctx.check("params-lists-exactly-the-components", cond(sorted(pf["Component"].tolist()) == sorted(names)))
+    for _, r in pf.iterrows():
+        name = r["Component"]
+        kind, P = info[name]["kind"], info[name]["P"]
+        ctx.check("type-column", cond(r["Type"] == spec.TYPE_NAME[kind]), info={"row": name})
+        has = set(PARAMS[kind]) | ({"loss"} if kind in spec.LOADS else set()) | ({"rt"} if kind == "Source" else set())
+        for col, key in cols.items():
+            cell = r[col]
+            inf = {"row": name, "col": col}
+            if key not in has:
+                ctx.check("parameter-not-of-this-kind-is-blank", cond(isinstance(cell, str) and cell == ""), info=inf)
+                continue
+            given = P.get(key, defaults.get(key, 0.0) if key != "loss" else False)
+            if isinstance(given, spec.Table):
+                ctx.check("table-shown-as-interp", cond(isinstance(cell, str) and cell == "interp"), info=inf)
+            elif key == "loss":
+                ctx.check("configured-parameter-shown", cond(cell is given or cell == given), info=inf)
+            elif isinstance(given, list):
+                ctx.check("configured-parameter-shown", cond(isinstance(cell, list) and len(cell) == len(given)), info=inf)
+                if isinstance(cell, list):
+                    for a, b in zip(cell, given):
+                        ctx.check("configured-parameter-shown", Eq(Abs(a), Abs(b)), info=inf)
+            else:
+                if isinstance(cell, str):
+                    ctx.fail("configured-parameter-shown", info={**inf, "cell": cell})
+                else:
+                    ctx.check("configured-parameter-shown", Eq(Abs(cell), Abs(given)), info=inf)
+    lcols = {"vi": "(V)", "vo": "(V)", "vd": "(V)", "ii": "(A)", "io": "(A)", "pi": "(W)", "po": "(W)", "pl": "(W)", "tr": "(°C)", "tp": "(°C)"}
+    for frame, sep in ((pf, " limit "), (lf, "  ")):
+        for _, r in frame.iterrows():
+            name = r["Component"]
+            for k, unit in lcols.items():
+                col = "%s%s%s" % (k, sep, unit)
+                if col not in frame.columns:
+                    ctx.fail("limit-column-present", info={"col": col})
+                    continue
+                cell = r[col]
+                inf = {"row": name, "col": col}
+                if k in lims[name]:
+                    lo, hi = lims[name][k]
+                    is_default = And(Eq(lo, DEFAULTS[k][0]), Eq(hi, DEFAULTS[k][1]))
+                    if isinstance(cell, str):
+                        ctx.check("non-default-limit-shown", is_default, info=inf)  # blank only if it equals the default
+                    else:
+                        ctx.check("shown-limit-is-the-configured-one", And(Eq(cell[0], lo), Eq(cell[1], hi)), info=inf)
+                        ctx.check("default-limit-shown-blank", Not(is_default), info=inf)
+                else:
+                    ctx.check("unconfigured-limit-blank", cond(isinstance(cell, str) and cell == ""), info=inf)
+    if not durations:
+        ctx.check("phases()-is-None-without-phases", cond(sysobj.phases() is None))
+        return
+    ph = sysobj.phases()
+    rows = {}
+    for _, r in ph.iterrows():
+        rows.setdefault(r["Component"], []).append(r)
+    ctx.check("phases-lists-exactly-the-components", cond(sorted(rows) == sorted(names)))
+    for name, rs_ in rows.items():
+        kind, conf, P = info[name]["kind"], info[name]["conf"], info[name]["P"]
+        listed = [p for p in durations if conf and p in conf]
+        got = [r["Active phase"] for r in rs_]
+        if kind in ("RLoss", "VLoss") or not listed:
+            ctx.check("active-phase-cells", cond(got == ["N/A"]), info={"row": name, "got": got})
+        else:
+            ctx.check("active-phase-cells", cond(got == listed), info={"row": name, "got": got, "want": listed})
+        if kind in spec.LOADS:
+            col = {"PLoad": "pwr (W)", "ILoad": "ii (A)", "RLoad": "rs (Ohm)"}[kind]
+            key = {"PLoad": "pwr", "ILoad": "ii", "RLoad": "rs"}[kind]
+            for r in rs_:
+                want = conf[r["Active phase"]] if (conf and r["Active phase"] in conf) else Abs(P[key])
+                cell = r[col]
+                if isinstance(cell, str):
+                    ctx.fail("per-phase-value-shown", info={"row": name, "phase": r["Active phase"]})
+                else:
+                    ctx.check("per-phase-value-shown", Eq(cell, want), info={"row": name, "phase": r["Active phase"]})
+                for other in ("pwr (W)", "ii (A)", "rs (Ohm)"):
+                    if other != col:
+                        ctx.check("other-load-columns-blank", cond(isinstance(r[other], str) and r[other] == ""), info={"row": name, "col": other})
+
+
+_old_instances = instances
+
+
+def instances(tier):
+    from ..shapes import S, N
+    from .. import shapes
+
+    out, meta = _old_instances(tier)
+    echo = {
+        "all-kinds-a": S(N("S", "Source"), N("C", "Converter", "S"), N("G", "LinReg", "C"), N("L1", "PLoad", "G"), N("L2", "ILoad", "C", loss=True),
+                         N("L3", "RLoad", "S")),
+        "all-kinds-b": S(N("S", "Source"), N("R", "RLoss", "S"), N("V", "VLoss", "R"), N("W", "PSwitch", "V"), N("D", "RectD", "W"), N("M", "RectM", "D"),
+                         N("L", "ILoad", "M")),
+        "tables": S(N("S", "Source"), N("C", "Converter", "S", form="t1x2"), N("G", "LinReg", "C", form="ct2x2x2"), N("V", "VLoss", "G", form="t1x2"),
+                    N("L", "PLoad", "V")),
+        "mux": S(N("S1", "Source"), N("S2", "Source"), N("M", "PMux", ["S1", "S2"], rs_list=True), N("L", "PLoad", "M")),
+        "phases": S(N("S", "Source", phases=["a"]), N("C", "Converter", "S", phases=["a", "b"]), N("R", "RLoss", "C"), N("L1", "PLoad", "R", phases=["b"]),
+                    N("L2", "ILoad", "C", phases=["a", "b"]), N("L3", "RLoad", "S", phases=["a"]), N("L4", "PLoad", "S"), phases=["a", "b"]),
+    }
+    for sid, sh in echo.items():
+        out.append(Instance("C16", "c16:e_echo", dict(shape=sh), name="E/echo/" + sid, cover=["reported"], weight=10, max_paths=20000))
+    return out, meta
